@@ -8,6 +8,7 @@ CONSTANTS
   SwResetExitElemV = TRUE
   SwValStructArgPtr = TRUE
   SwNestedSourceTag = TRUE
+  SwEmptyRecordSourceTag = TRUE
   SwRunAllTests = TRUE
   SwSoftPT = "any"
 INIT TraceInit
